@@ -13,7 +13,6 @@ Oracle: independent of the Lean model: the user's objective / constraint express
 """
 from __future__ import annotations
 
-import os
 import warnings
 from fractions import Fraction
 
@@ -40,20 +39,12 @@ ASSUMPTIONS = [
     "the coefficient arithmetic is not modelled (inputs of the correspondence run are small dyadic rationals: exact)",
     "the variable list handed to the extractor is Problem.variables (its order and duplicate-freeness are C16's subject)",
     "every variable of an extracted expression occurs in that list (holds for Problem.variables by construction)",
-    "expressions are built from the node kinds the extractor knows (no VectorPowerSum: see KNOWN defect candidate "
-    "'(x**1).sum() is classified linear but extracted as 0' reported by the builder)",
     "VectorVariable operands reachable through the public API list their elements in strictly increasing or strictly "
     "decreasing problem order (slices, rows, columns, diagonals): the invariant the O(1) shortcuts rely on",
 ]
 
-# (x ** 1).sum() / (x ** 0).sum() build VectorPowerSum nodes of degree 1 / 0: `is_linear` accepts them but none of the
-# extraction walkers knows the node, so their coefficients / constant are silently dropped (a genuine C05 violation of
-# the unmodified tree, reported to the coordinator).  Keep them out of the default stream until it is decided.
-INCLUDE_POWSUM = os.environ.get("C05_INCLUDE_POWSUM", "") == "1"
-
-
 def run_lean_unit(lines):
-    return core.run_lean(lines, main="Driver/Main_Analysis.lean")
+    return core.run_lean(lines)
 
 
 # ----------------------------------------------------------------------------- formatting (the model's canonical text)
@@ -228,14 +219,52 @@ def rand_lin(rng, P, depth):
     if r < 0.95:
         A = np.array([[dy(rng) for _ in range(k)] for _ in range(rng.randint(1, 3))], dtype=float)
         return rng.choice((A @ v)._expressions)
-    if r < 0.975:
+    if r < 0.96:
         return rng.choice([lambda: v.sum() - dy(rng), lambda: v.sum() + Constant(dy(rng)), lambda: cs @ v - dy(rng),
                            lambda: cs @ v + dy(rng), lambda: dy(rng) * v.sum(), lambda: v.sum() * dy(rng),
                            lambda: Constant(dy(rng)) * v.sum(), lambda: v.sum() * Constant(dy(rng)),
                            lambda: v.sum() - rng.choice(P.leaves()), lambda: cs @ v + rng.choice(P.leaves())])()
-    if INCLUDE_POWSUM:
-        return (v ** rng.choice([1, 0])).sum()
-    return cs @ v
+    # VectorPowerSum with power 1 / 0 (linear since the fix 35fb4df knows the node), alone and inside arithmetic
+    ps = (v ** rng.choice([1, 0, 1.0, 0.0])).sum()
+    return rng.choice([lambda: ps, lambda: ps - dy(rng), lambda: dy(rng) * ps, lambda: ps + rng.choice(P.leaves()),
+                       lambda: cs @ v - ps, lambda: -ps, lambda: ps / p2(rng)])()
+
+
+VEC_KINDS = ("lc", "vs", "kvs", "ps1")
+
+
+def vec_node(kind, view, coeffs, k=2.0):
+    """a scalar node over a VectorVariable view: c @ v, v.sum(), k * v.sum(), (v ** 1).sum()"""
+    if kind == "lc":
+        return np.array(coeffs[:len(view)], dtype=float) @ view
+    if kind == "vs":
+        return view.sum()
+    if kind == "kvs":
+        return k * view.sum()
+    return (view ** 1).sum()
+
+
+def vec_views(v):
+    """views of one vector: covering all of it (natural / copy / reversed) and partial (strided, shifted)"""
+    n = len(v)
+    full = [("x", v), ("x[:]", v[:]), ("x[::-1]", v[::-1])]
+    part = [("x[::2]", v[::2])]
+    if n >= 2:
+        part += [("x[1:]", v[1:]), ("x[0:n-1]", v[0:n - 1]), ("x[:0:-1]", v[:0:-1])]
+    return full, part
+
+
+def rand_two_vec(rng, P):
+    """top-level `node ± node` whose both operands are vector nodes over views of the same vector"""
+    v = rng.choice(P.vectors)
+    full, part = vec_views(v)
+    pool = full * 3 + part
+    (_, a), (_, b) = rng.choice(pool), rng.choice(pool)
+    ca = [dy(rng) for _ in range(len(v))]
+    cb = [dy(rng) for _ in range(len(v))]
+    l = vec_node(rng.choice(VEC_KINDS), a, ca, p2(rng))
+    r = vec_node(rng.choice(VEC_KINDS), b, cb, p2(rng))
+    return l, r
 
 
 def rand_problem(rng, style=None):
@@ -247,6 +276,9 @@ def rand_problem(rng, style=None):
     depth = rng.randint(1, 3)
     prob = Problem()
     obj = rand_lin(rng, P, depth)
+    if rng.random() < 0.15:
+        l2, r2 = rand_two_vec(rng, P)
+        obj = l2 + r2 if rng.random() < 0.5 else l2 - r2
     odd = rng.random()
     if odd < 0.02:
         obj = obj + sin(rng.choice(P.leaves()))            # NonLinearError from the objective
@@ -263,6 +295,10 @@ def rand_problem(rng, style=None):
     for _ in range(rng.randint(0, 5)):
         lhs = rand_lin(rng, P, rng.randint(1, 3))
         rhs = rng.choice([lambda: dy(rng), lambda: dy(rng), lambda: rand_lin(rng, P, 1), lambda: Constant_(dy(rng))])()
+        if rng.random() < 0.15:
+            lhs, rhs = rand_two_vec(rng, P)          # `a @ x <= b @ x[::-1]` normalises to node − node
+            if rng.random() < 0.3:
+                lhs, rhs = lhs + rhs, dy(rng)
         q = rng.random()
         if q < 0.015:
             lhs = lhs * rng.choice(P.leaves())               # NonLinearError from a constraint (unless lhs is constant)
@@ -299,7 +335,11 @@ def fixed_problems(rng):
                 ("x*(2+3)", lambda: x[0] * (Constant(2) + 3)), ("vs+var", lambda: x.sum() + x[0]), ("lc-var", lambda: c @ x - x[n - 1]),
                 ("vs-vs", lambda: x.sum() - x.sum()), ("neg-vs", lambda: -x.sum()), ("vs/2", lambda: x.sum() / 2),
                 ("x**0", lambda: x[0] ** 0 + x.sum()), ("k**2*x", lambda: BinaryOp(Constant(2) + 1, Constant(2), "**") * x[0]),
-                ("2-vs", lambda: 2 - x.sum()), ("k", lambda: Constant(2.5) + 1)]
+                ("2-vs", lambda: 2 - x.sum()), ("k", lambda: Constant(2.5) + 1),
+                ("ps1", lambda: (x ** 1).sum()), ("ps0", lambda: (x ** 0).sum() + x[0]), ("ps1.0-k", lambda: (x ** 1.0).sum() - 3),
+                ("k*ps1", lambda: 2 * (x ** 1).sum()), ("ps1rev", lambda: (x[::-1] ** 1).sum()),
+                ("vs+ps0", lambda: x.sum() + (x ** 0).sum()), ("lc-ps1", lambda: c @ x - (x ** 1).sum()),
+                ("ps0**2", lambda: BinaryOp((x ** 0).sum(), Constant(2), "**") * x[0]), ("ps0*x", lambda: (x ** 0).sum() * x[n - 1])]
         for (tag, mk) in objs:
             for extra in ("none", "a", "z", "both"):
                 for sense in ("<=", ">=", "=="):
@@ -314,6 +354,30 @@ def fixed_problems(rng):
                     if extra in ("z", "both"):
                         P.subject_to((2 * z - x[n - 1]).eq(0.5))
                     out.append((f"fixed:{tag}:n{n}:{extra}:{sense}", P))
+    # top-level sum / difference of TWO vector nodes over views of the same vector (full / copy / reversed /
+    # strided / shifted), both orders, non-palindromic coefficients, as objective and as constraint (3 senses)
+    CA = [1.0, 2.0, 4.0, 8.0]
+    CB = [3.0, -1.0, 0.5, 5.0]
+    for n in (2, 3):
+        x = VectorVariable("x", n, lb=0, ub=4)
+        full, part = vec_views(x)
+        pairs = [(a, b) for a in full for b in full] + [(a, b) for a in full[:1] + full[2:] for b in part[:3]]
+        pairs += [(b, a) for a in full[:1] + full[2:] for b in part[:3]] + [(part[0], part[-1]), (part[-1], part[0])]
+        for ka in VEC_KINDS:
+            for kb in VEC_KINDS:
+                for (na, va), (nb, vb) in pairs:
+                    mk = lambda op: (vec_node(ka, va, CA) + vec_node(kb, vb, CB)) if op == "+" else (vec_node(ka, va, CA) - vec_node(kb, vb, CB))
+                    for op in ("+", "-"):
+                        P = Problem()
+                        (P.minimize if op == "+" else P.maximize)(mk(op))
+                        P.subject_to(x.sum() <= 4)
+                        out.append((f"fixed2:{ka}{op}{kb}:{na}:{nb}:n{n}:obj", P))
+                    P = Problem().minimize(x.sum())
+                    P.subject_to(vec_node(ka, va, CA) <= vec_node(kb, vb, CB))
+                    P.subject_to(vec_node(ka, va, CA) >= vec_node(kb, vb, CB))
+                    P.subject_to(vec_node(ka, va, CA).eq(vec_node(kb, vb, CB)))
+                    P.subject_to(vec_node(kb, vb, CB) + vec_node(ka, va, CA) <= 3)
+                    out.append((f"fixed2:{ka}?{kb}:{na}:{nb}:n{n}:con", P))
     # matrix rows / columns, 1×k matrix whose row is the whole variable list
     M = MatrixVariable("M", 1, 3, lb=0)
     out.append(("fixed:matrow", Problem().minimize(np.array([1.0, 2.0, 3.0]) @ M[0, :]).subject_to(M[0, :].sum() <= 4)))
@@ -480,7 +544,7 @@ def run(ctx) -> core.Report:
         names = [v.name for v in P.variables]
         sub = []
         S = Ser(ids)
-        for e in exprs[:3]:
+        for e in exprs[:4]:
             s = S.expr(e)
             # (order, invariant): the second component says whether the order is one Problem.variables can
             # produce (sorted); under a permuted order the shortcuts may fire although the vector is not the
@@ -508,7 +572,7 @@ def run(ctx) -> core.Report:
     outs = run_lean_unit(lines)
 
     for tag, P, idx, sub in metas:
-        key = tag.split(":")[1] if tag.startswith("rand") else "fixed"
+        key = tag.split(":")[1] if tag.startswith("rand") else tag.split(":")[0]
         rep.histogram["style:" + key] = rep.histogram.get("style:" + key, 0) + 1
         rep.evaluations += 1
         lp, ex = extract_real(P)
@@ -563,7 +627,7 @@ def run(ctx) -> core.Report:
             if got != outs[li]:
                 rep.corr_mismatches.append({"tag": tag, "cmd": lines[li][:1200], "impl": got[:400], "model": outs[li][:400]})
             # oracle for the stand-alone functions: coefficients of a full order reproduce the expression
-            if cmd in ("coeffs", "coeffs-perm") and got.startswith("(ok") and set(arg) >= {v.name for v in gen.expr_vars(e)} and kind_of_expr(e) is None:
+            if cmd in ("coeffs", "coeffs-perm") and got.startswith("(ok") and set(arg) >= {v.name for v in gen.expr_vars(e)}:
                 try:
                     c0 = Fraction(float(A.extract_constant_term(e)))
                     cs = [Fraction(t) for t in got[4:-1].split()] if got != "(ok )" else []
